@@ -115,10 +115,11 @@ pub use to_string_ax::*;
 
 // ---- T5 wrappers on `slice.iter()` itself ------------------------------------------------------------------
 /// concatenation of the vectors' contents, in order
-pub open spec fn flat<B>(o: Seq<Vec<B>>) -> Seq<B>
-    decreases o.len()
+pub open spec fn flat<B>(o: Seq<Vec<B>>) -> Seq<B> { flat_from(o, 0) }
+pub open spec fn flat_from<B>(o: Seq<Vec<B>>, k: int) -> Seq<B>
+    decreases o.len() - k
 {
-    if o.len() == 0 { Seq::empty() } else { flat(o.drop_last()) + o.last()@ }
+    if k < 0 || k >= o.len() { Seq::empty() } else { o[k]@ + flat_from(o, k + 1) }
 }
 pub trait VpSliceIterExt<'a, T: 'a>: Sized + Iterator<Item = &'a T> {
     fn vp_filter_map<B, F: FnMut(&'a T) -> Option<B>>(self, f: F) -> (r: std::vec::IntoIter<B>)
